@@ -94,7 +94,7 @@ func (c *Cluster) metaCells(r *Region) []Cell {
 		ns, q = r.Table[:i], r.Table[i+1:]
 	}
 	ri := &pb.RegionInfo{RegionId: proto.Uint64(r.ID), TableName: &pb.TableName{Namespace: []byte(ns), Qualifier: []byte(q)},
-		StartKey: r.Start, EndKey: r.Stop, Offline: proto.Bool(false), Split: proto.Bool(false)}
+		StartKey: r.Start, EndKey: r.Stop, Offline: proto.Bool(r.MetaOffline), Split: proto.Bool(false)}
 	body, _ := proto.Marshal(ri)
 	info := []byte("info")
 	return []Cell{
